@@ -109,6 +109,89 @@ pub fn run(args: &[String]) -> i32 {
                           "still_connected": node.connections().contains_key("peer@127.0.0.1")}));
             drop(peer);
         }
+        // ---- a storm of malformed but correctly framed input (Inbound!Junk as families): every first byte, every control tag as a tuple of
+        // the wrong shape, every cut of a well-formed frame, with a numbered message for a named process after each
+        {
+            let listener = TcpListener::bind("127.0.0.1:0").await.expect("bind");
+            let (epmd_port, _e) = fake_epmd(listener.local_addr().unwrap().port()).await;
+            verif::set_epmd_port(epmd_port);
+            let mut node = Node::new("n1@127.0.0.1", COOKIE);
+            if node.start(0).await.is_err() {
+                w.put(&json!({"tool_error": "node start failed"}));
+                return;
+            }
+            let node = Arc::new(node);
+            let log = Arc::new(Mutex::new(Vec::new()));
+            let sink = node.spawn(Recorder { tag: "sink".into(), log: log.clone() }).await.expect("spawn");
+            let _ = node.register(Atom::new("sink"), sink.clone()).await;
+            let Some(mut peer) = connect_peer(&node, &listener).await else {
+                w.put(&json!({"tool_error": "could not connect"}));
+                return;
+            };
+            let remote = erltf::types::ExternalPid::new(Atom::new("peer@127.0.0.1"), 5, 0, 1);
+            let to_sink = OwnedTerm::Tuple(vec![OwnedTerm::Integer(6), OwnedTerm::Pid(remote.clone()), a(""), a("sink")]);
+            let good = pass_through(&to_sink, Some(&OwnedTerm::Tuple(vec![a("x"), OwnedTerm::Integer(0)])));
+            let mut junk: Vec<(String, Vec<u8>)> = Vec::new();
+            for b in 0..=255u8 {
+                if b != 112 {
+                    let mut f = good.clone();
+                    f[0] = b;
+                    junk.push((format!("first byte {b}"), f));
+                }
+            }
+            for tag in 0..=255i64 {
+                for arity in [1usize, 9] {
+                    let mut e = vec![OwnedTerm::Integer(tag)];
+                    e.extend((1..arity).map(|i| OwnedTerm::Integer(i as i64)));
+                    junk.push((format!("control tuple {{{tag}, ...}} of {arity} integers"), pass_through(&OwnedTerm::Tuple(e), None)));
+                }
+            }
+            for cut in 1..good.len() {
+                junk.push((format!("a well-formed frame cut after {cut} bytes"), good[..cut].to_vec()));
+            }
+            let mut sent = 0usize;
+            let mut wrote_all = true;
+            for (_, j) in &junk {
+                wrote_all &= write_dist_frame(&mut peer.wr, j).await;
+                sent += 1;
+                wrote_all &= write_dist_frame(&mut peer.wr, &pass_through(&to_sink, Some(&OwnedTerm::Tuple(vec![a("s"), OwnedTerm::Integer(sent as i64)])))).await;
+            }
+            // ... and messages far larger than one read returns with the next ones right behind them in the same write
+            for big in [4097usize, 6000, 65536, 200_000] {
+                use tokio::io::AsyncWriteExt;
+                let mut buf: Vec<u8> = Vec::new();
+                let mut frame = |body: Vec<u8>, buf: &mut Vec<u8>| {
+                    buf.extend_from_slice(&(body.len() as u32).to_be_bytes());
+                    buf.extend_from_slice(&body);
+                };
+                sent += 1;
+                frame(pass_through(&to_sink, Some(&OwnedTerm::Tuple(vec![a("s"), OwnedTerm::Integer(sent as i64), OwnedTerm::Binary(vec![7u8; big])]))), &mut buf);
+                for k in 0..4 {
+                    if k == 2 {
+                        frame(Vec::new(), &mut buf);
+                    }
+                    sent += 1;
+                    frame(pass_through(&to_sink, Some(&OwnedTerm::Tuple(vec![a("s"), OwnedTerm::Integer(sent as i64)]))), &mut buf);
+                }
+                wrote_all &= peer.wr.write_all(&buf).await.is_ok() && peer.wr.flush().await.is_ok();
+                junk.push((format!("(no malformed frame: a message of {big} bytes with four more behind it in one write)"), Vec::new()));
+                for _ in 0..4 {
+                    junk.push((format!("(no malformed frame: behind a message of {big} bytes in the same write)"), Vec::new()));
+                }
+            }
+            let t0 = Instant::now();
+            let count = |log: &Arc<Mutex<Vec<Value>>>| log.lock().unwrap().len();
+            while count(&log) < sent && t0.elapsed() < Duration::from_secs(15) && node.connections().contains_key("peer@127.0.0.1") {
+                tokio::time::sleep(Duration::from_millis(10)).await;
+            }
+            tokio::time::sleep(Duration::from_millis(100)).await;
+            let entries = log.lock().unwrap().clone();
+            let got: Vec<i64> = entries.iter().map(|e| e["msg"]["body"]["e"][1]["mag"].as_array().map(|m| m.iter().rev().fold(0i64, |acc, x| acc * 256 + x.as_i64().unwrap_or(0))).unwrap_or(-1)).collect();
+            let first_gap = got.iter().enumerate().find(|(i, x)| **x != *i as i64 + 1).map(|(i, _)| i);
+            let stopped_after = first_gap.or(if got.len() < sent { Some(got.len()) } else { None }).map(|i| junk.get(i).map(|j| j.0.clone()).unwrap_or_default());
+            w.put(&json!({"storm": true, "malformed_frames": junk.len(), "wrote_all": wrote_all, "messages_sent": sent, "messages_handled": got.len(), "in_order_without_gaps": first_gap.is_none() && got.len() == sent,
+                          "first_difference_after_the_malformed_frame": stopped_after, "still_connected": node.connections().contains_key("peer@127.0.0.1")}));
+        }
     });
     w.finish();
     0
